@@ -6,12 +6,12 @@ import os
 TECHNIQUE = {
     "C01": "static analysis: emission-site audit with dominating guard facts (both quoters), derived literal tables vs RFC 3986 sets, hex-digit decoder folded over probe code points, encodedness typestate over all constructor sinks",
     "C02": "static analysis: emission guards (decode only safe and not protected), protected-delimiter tables, encodedness typestate (quote exactly once, no mixed-kind slicing, no re-quoting of own decoded text), substring-provenance of the splitter's components",
-    "C03": "static analysis: printer/parser template tables folded over all part classes vs the RFC 3986 Appendix B expression, print-parse-print fixed point of the authority, stable/terminator-free quoting tables, quoter-vs-requoter stability, ordering rules (quote before normalise), no dot segment stored by with_name/with_suffix under an authority",
+    "C03": "static analysis: printer/parser template tables folded over all part classes vs the RFC 3986 Appendix B expression, print-parse-print fixed point of the authority, stable/terminator-free quoting tables, quoter-vs-requoter stability, ordering rules (quote before normalise), no dot segment stored by with_name/with_suffix under an authority, query pair-quoting typestate",
     "C04": "static analysis: exhaustive 128-character policy table per configuration derived from emission guards, lower = upper bound for requoters, identity fast-path rules, dot segments kept without authority at the constructor, whole-argument rule of the host encoder",
     "C05": "static analysis: sibling cross-check - one rule set over the .py ast and the Cython-parsed .pyx, derived policy tables compared, look-ahead bounds, drop-stage and statelessness rules, C-level narrowing of text units judged on path bounds (interprocedural unit-parameter fixpoint), contract of the byte writer (unit stored, changed flag accumulated on every success path)",
     "C06": "static analysis: unquoter emission-class audit (both backends) incl. the length of verbatim copies as a linear form, escape-syntax acceptance sets (pattern classes / table keys), accessor/unquoter/raw-role pairing by typestate, write-side quoter audit and tables, builder argument flow, verbatim constructor sinks, kind-checked return-self short-cuts, stateless shared unquoter instances",
-    "C07": "static analysis: delimiter and search-direction table of the splitter extracted from call events vs RFC 3986 Appendix B, strip/remove sets by constant folding, substring-provenance walk of every returned component, port-zero truthiness rule in the authority helpers, substring-provenance of split_netloc, printer/parser template table over the parse-reachable part classes",
-    "C08": "static effect analysis: stores only on fresh objects, memoised code pure in its key, shared instances stateless, re-binding and argument-mutation discipline, cache hand-over judged by the slot dependencies of each cache key, one definition per co-filled cache key, memoised mutable values only copied (every spelling), one cache key per cached property",
+    "C07": "static analysis: delimiter and search-direction table of the splitter extracted from call events vs RFC 3986 Appendix B, strip/remove sets by constant folding, substring-provenance walk of every returned component, port-zero truthiness rule in the authority helpers, substring-provenance of split_netloc, printer/parser template table over the parse-reachable part classes, folded accessor table raw_path_qs = raw_path + query",
+    "C08": "static effect analysis: stores only on fresh objects, memoised code pure in its key, shared instances stateless, re-binding and argument-mutation discipline, cache hand-over judged by the slot dependencies of each cache key, one definition per co-filled cache key, memoised mutable values only copied (every spelling), one cache key per cached property, no removal from a URL cache",
     "C09": "static analysis: pickle field agreement, eager cache entries vs inlined lazy definitions over a None/empty/non-empty shape domain, assembly-consistency rule, cache hand-over judged by the slot dependencies of each cache key, port-zero truthiness rule in the authority helpers, substring-provenance of split_netloc, one cache key per cached property",
     "C10": "static analysis: key tables of ==, hash and the ordering operators over the four emptiness cells of (path, authority), guard and operator checks, pre-filled comparison keys vs their lazy definitions, hash-memo provenance, one cache key per cached property",
     "C11": "static analysis: per-modifier component flow matrix on every return path with delegation following, authority re-assembly role check, builder argument flow, flag defaults, encodedness typestate incl. flag-controlled quoting in helpers, verbatim constructor sinks, kind-checked return-self short-cuts, bracket predicate of the accessor the authority is rebuilt from",
@@ -20,10 +20,10 @@ TECHNIQUE = {
     "C14": "static analysis: source-of-component table of join() on every path vs RFC 3986 5.2.2 (unmerged path-sensitive analysis), encoded-splice typestate, verbatim constructor sinks, one-removal-per-dot-dot and trailing-slash rules of the resolver, feasibility of merging a reference that has an authority (folded scheme tables)",
     "C15": "static analysis: truth-table rule over (authority present, dot in quoted path) at every entry point and on every merging path of join(), guard-dominance and one-removal-per-dot-dot and trailing-slash audit of the segment resolver, no dot segment stored by with_name/with_suffix",
     "C16": "static analysis: lower-case-by-construction summaries of the host encoder, bracket predicate facts and IPv6/zone result templates, IP-probe coverage of every exit, regex AST of the reg-name pattern vs the RFC grammar, NFKC-screen reachability on traces, whole-argument and no-pre-folding rules, kind-checked return-self short-cut of with_host",
-    "C17": "static analysis: validation-dominance facts for every API port flow (per path alternative), default-port predicate shape and which branch elides the port (judged on paths), zero-vs-None truthiness rule, no swallowed ValueError of the authority splitter, table folding",
+    "C17": "static analysis: validation-dominance facts for every API port flow (per path alternative), default-port predicate shape and which branch elides the port (judged on paths), zero-vs-None truthiness rule, no swallowed ValueError of the authority splitter, stale cache hand-over of scheme-dependent keys, table folding",
     "C18": "static analysis: folded escape sets of human_repr vs position delimiters, dominance of the replacement loop over every return, component coverage, parser-side acceptance of what is shown (strip clause, NFKC screen sets delimiters aside), port-zero rule in the shared authority printer",
-    "C19": "static analysis: shape domain for subscripts / Optional dereference / cache-key loads / None into text slots and non-optional parameters on every path, raise-type, exception-attribute, unbound-name, raising-lookup and recursion rules (call graph with implicit dunder edges), writer resource discipline, allocation-failure propagation and fixed-size array bounds of the .pyx",
-    "C20": "static analysis of necessary structure under the GIL: C-only critical section of the static buffer, single-publication cache fills, pure memoised code, stateless shared instances, no Python-level iteration over live cache dicts",
+    "C19": "static analysis: shape domain for subscripts / Optional dereference / cache-key loads / None into text slots and non-optional parameters on every path, raise-type, exception-attribute, unbound-name, raising-lookup and recursion rules (call graph with implicit dunder edges), writer resource discipline, allocation-failure propagation and fixed-size array bounds of the .pyx, memoised names stay lru wrappers, validated port normalised to a plain int",
+    "C20": "static analysis of necessary structure under the GIL: C-only critical section of the static buffer, single-publication cache fills, pure memoised code, stateless shared instances, no Python-level iteration over live cache dicts, no removal from a URL cache",
 }
 
 HERE = os.path.dirname(os.path.dirname(os.path.abspath(__file__)))
